@@ -1,5 +1,6 @@
 (* C13 — scanning is lossless and follows the Delphi lexical rules at any length. Statements only. *)
 From PasfmtVerif Require Import Model.Lexer Proofs.LexerProofs.
+From PasfmtVerif Require Import Proofs.LexerSpecProofs.
 
 (* the lexer accepts every byte string (fuel never runs out; every token consumes at least a byte) *)
 Theorem C13_total : forall s, exists toks, lex s = Some toks.
@@ -49,3 +50,161 @@ Proof. exact get_word_token_type_hash_eq. Qed.
 Theorem C13_keyword_case_insensitive :
   forall w, get_word_token_type (lower w) = get_word_token_type w /\ get_word_token_type (upper w) = get_word_token_type w.
 Proof. exact (fun w => conj (get_word_token_type_lower w) (get_word_token_type_upper w)). Qed.
+
+(* ---- declarative lexical specification (Proofs/LexerSpecProofs.v): each token class is the longest
+   match of its Delphi lexical rule, for every state, every text, at any length; tokens depend only on the
+   suffix and the two-bit state, never on the position ---- *)
+Theorem C13_every_token_is_lex_token :
+  forall (s : bytes) (toks : list (nat * nat * RawTokenType)),
+  lex s = Some toks -> lex_steps init_state toks s.
+Proof. exact lex_steps_sound. Qed.
+
+Theorem C13_position_independent :
+  forall (st : lstate) (ws : bytes) (b : byte) (t : bytes)
+    (toks : list (nat * nat * RawTokenType)),
+  all_blank ws ->
+  tok_start b t ->
+  lex_from st (ws ++ b :: t) = Some toks ->
+  exists (n : nat) (ty : RawTokenType) (a : bool) (rest : list (nat * nat * RawTokenType)),
+    lex_token st (contains_byte 10 ws || ls_first st) b t = Some (n, ty, a) /\
+    lex_from (next_state st ty a) (skipn n t) = Some rest /\
+    toks = (length ws, S n, ty) :: rest.
+Proof. exact lex_position_independent. Qed.
+
+Theorem C13_same_suffix_same_tokens :
+  forall (s1 s2 : bytes) (st : lstate) (l : bytes)
+    (toks1 toks2 : list (nat * nat * RawTokenType)),
+  lex s1 = Some toks1 ->
+  lex s2 = Some toks2 ->
+  lex_reach init_state s1 st l ->
+  lex_reach init_state s2 st l ->
+  exists pre1 pre2 rest : list (nat * nat * RawTokenType),
+    toks1 = pre1 ++ rest /\ toks2 = pre2 ++ rest /\ lex_from st l = Some rest.
+Proof. exact lex_same_suffix_same_tokens. Qed.
+
+Theorem C13_word_maximal :
+  forall (st : lstate) (nlb : bool) (b : byte) (t : list byte),
+  ls_asm st = false ->
+  word_start b = true ->
+  is_u3000_at (b :: t) = false ->
+  exists (n : nat) (ty : RawTokenType),
+    lex_token st nlb b t = Some (n, ty, is_kw_asm ty) /\
+    ident_run (b :: t) (S n) /\
+    S n = ident_end_generic (b :: t) /\
+    ty = (if prev_is_dot st then RTT_Identifier else get_word_token_type (b :: firstn n t)).
+Proof. exact lex_word_maximal. Qed.
+
+Theorem C13_keyword_iff_in_table :
+  forall w : bytes,
+  get_word_token_type w = RTT_Identifier <->
+  (forall ty : RawTokenType, ~ In (lower w, ty) KEYWORDS_table).
+Proof. exact keyword_iff_in_table. Qed.
+
+Theorem C13_keyword_type_in_table :
+  forall (w : bytes) (ty : RawTokenType),
+  In (lower w, ty) KEYWORDS_table -> get_word_token_type w = ty.
+Proof. exact keyword_type_in_table. Qed.
+
+Theorem C13_number_longest :
+  forall (st : lstate) (nlb : bool) (b : byte) (t : bytes),
+  ls_asm st = false ->
+  is_digit b = true ->
+  exists n : nat,
+    lex_token st nlb b t = Some (n, RTT_NumberLiteral NK_Decimal, false) /\
+    (n <= length t)%nat /\
+    dec_number_shape (b :: firstn n t) /\
+    (forall p r : bytes, b :: t = p ++ r -> dec_number_shape p -> (length p <= S n)%nat).
+Proof. exact lex_number_spec. Qed.
+
+Theorem C13_hex :
+  forall (st : lstate) (nlb : bool) (t : bytes),
+  exists n : nat,
+    lex_token st nlb 36 t = Some (n, RTT_NumberLiteral NK_Hex, ls_asm st) /\
+    longest_run is_hex t n.
+Proof. exact lex_hex_spec. Qed.
+
+Theorem C13_binary :
+  forall (st : lstate) (nlb : bool) (t : bytes),
+  exists n : nat,
+    lex_token st nlb 37 t = Some (n, RTT_NumberLiteral NK_Binary, ls_asm st) /\
+    longest_run is_bin t n.
+Proof. exact lex_binary_spec. Qed.
+
+Theorem C13_line_comment :
+  forall (st : lstate) (nlb : bool) (t : bytes),
+  exists n : nat,
+    lex_token st nlb 47 (47 :: t) =
+    Some (S n, RTT_Comment (if nlb then CoK_IndividualLine else CoK_InlineLine), ls_asm st) /\
+    longest_run not_eol t n.
+Proof. exact lex_line_comment_spec. Qed.
+
+Theorem C13_block_comment :
+  forall (st : lstate) (nlb : bool) (t : bytes),
+  next_is 36 t = false ->
+  (exists (n : nat) (ck : CommentKind),
+     lex_token st nlb 123 t = Some (n, RTT_Comment ck, ls_asm st) /\
+     block_comment_spec BCK_Brace nlb t n ck) /\
+  (exists (n : nat) (ck : CommentKind),
+     lex_token st nlb 40 (42 :: t) = Some (S n, RTT_Comment ck, ls_asm st) /\
+     block_comment_spec BCK_ParenStar nlb t n ck).
+Proof. exact lex_block_comment_spec. Qed.
+
+Theorem C13_string :
+  forall (st : lstate) (nlb : bool) (t : bytes),
+  (ml_opener t = false ->
+   exists (n : nat) (k : TextLiteralKind),
+     lex_token st nlb 39 t = Some (n, RTT_TextLiteral k, ls_asm st) /\
+     (k = TK_SingleLine \/ k = TK_Unterminated) /\ sl_result (39 :: firstn n t) k (skipn n t)) /\
+  (exists (n : nat) (k : TextLiteralKind),
+     lex_token st nlb 35 t = Some (n, RTT_TextLiteral k, ls_asm st) /\
+     (k = TK_SingleLine \/ k = TK_Unterminated) /\ sl_result (35 :: firstn n t) k (skipn n t)).
+Proof. exact lex_string_spec. Qed.
+
+Theorem C13_string_maximal :
+  forall (st : lstate) (nlb : bool) (b : byte) (t p r : bytes) (n : nat) 
+    (k : TextLiteralKind) (a : bool),
+  b = 39 \/ b = 35 ->
+  (b = 39 -> ml_opener t = false) ->
+  lex_token st nlb b t = Some (n, RTT_TextLiteral k, a) ->
+  b :: t = p ++ r -> pieces p -> (length p <= S n)%nat.
+Proof. exact lex_string_maximal. Qed.
+
+Theorem C13_ml_opener :
+  forall t : bytes,
+  ml_opener t = true <->
+  (exists (m : nat) (c : byte) (r : bytes),
+     t = repeat 39 m ++ c :: r /\ (c = 13 \/ c = 10) /\ (2 <= m)%nat /\ Nat.even m = true).
+Proof. exact ml_opener_spec. Qed.
+
+Theorem C13_multiline_string :
+  forall (st : lstate) (nlb : bool) (t : bytes),
+  ml_opener t = true ->
+  let q := S (count_while (fun c : N => c =? 39) t) in
+  let body := skipn (q - 1) t in
+  exists (n : nat) (k : TextLiteralKind),
+    lex_token st nlb 39 t = Some (n, RTT_TextLiteral k, ls_asm st) /\
+    ((exists pos : nat,
+        first_occurrence (repeat 39 q) body pos /\
+        n = (q - 1 + pos + q)%nat /\ (n <= length t)%nat /\ k = TK_MultiLine) \/
+     no_occurrence (repeat 39 q) body /\ n = length t /\ k = TK_Unterminated).
+Proof. exact lex_multiline_spec. Qed.
+
+Theorem C13_operator_sound :
+  forall (st : lstate) (nlb : bool) (b : byte) (t : bytes) (n : nat) (k : OperatorKind),
+  ls_asm st = false \/ b <> 64 ->
+  op_spec b (hd_error t) = Some (n, k) -> lex_token st nlb b t = Some (n, RTT_Op k, ls_asm st).
+Proof. exact lex_operator_spec. Qed.
+
+Theorem C13_operator_complete :
+  forall (st : lstate) (nlb : bool) (b : byte) (t : bytes) (n : nat) 
+    (k : OperatorKind) (a : bool),
+  ls_asm st = false ->
+  lex_token st nlb b t = Some (n, RTT_Op k, a) -> op_spec b (hd_error t) = Some (n, k).
+Proof. exact lex_operator_complete. Qed.
+
+Theorem C13_unknown :
+  forall (st : lstate) (nlb : bool) (b : byte) (t : bytes),
+  ls_asm st = false ->
+  classified b = false -> lex_token st nlb b t = Some (0%nat, RTT_Unknown, false).
+Proof. exact lex_unknown_spec. Qed.
+
